@@ -285,6 +285,43 @@ Theorem C13_complex_mult_done_and_product : forall alen blen sh A B st0,
 Proof. exact complex_mult_done_and_product. Qed.
 Print Assumptions C13_complex_mult_done_and_product.
 
+(* a start pulse is honoured whatever the unit is doing: issued while an earlier
+   multiplication is still busy, it latches the new operands, clears accum, and the
+   product of the NEW operands is delivered within the same bound *)
+Theorem C13_simple_mult_restart_while_busy : forall alen blen A B st0,
+  0 < alen -> 0 < blen -> 0 <= A < 2 ^ alen -> 0 <= B < 2 ^ blen ->
+  m_done st0 = false ->
+  let st1 := simple_step alen blen true A B st0 in
+  let hold := simple_step alen blen false A B in
+  st1 = MkM A B 0 /\
+  exists d, (d <= Z.to_nat alen)%nat /\
+    (forall j, (j < d)%nat -> m_done (m_run hold j st1) = false) /\
+    (forall k, (d <= k)%nat ->
+       m_done (m_run hold k st1) = true /\ accum (m_run hold k st1) = A * B).
+Proof. exact simple_mult_restart_while_busy. Qed.
+Print Assumptions C13_simple_mult_restart_while_busy.
+
+Theorem C13_complex_mult_restart_while_busy : forall alen blen sh A B st0,
+  0 < alen -> 0 < blen -> (1 <= sh)%nat -> 0 <= A < 2 ^ alen -> 0 <= B < 2 ^ blen ->
+  m_done st0 = false ->
+  let st1 := complex_step alen blen sh true A B st0 in
+  let hold := complex_step alen blen sh false A B in
+  let bound := Z.to_nat ((alen + Z.of_nat sh - 1) / Z.of_nat sh) in
+  st1 = MkM A B 0 /\
+  exists d, (d <= bound)%nat /\
+    (forall j, (j < d)%nat -> m_done (m_run hold j st1) = false) /\
+    (forall k, (d <= k)%nat ->
+       m_done (m_run hold k st1) = true /\ accum (m_run hold k st1) = A * B).
+Proof. exact complex_mult_restart_while_busy. Qed.
+Print Assumptions C13_complex_mult_restart_while_busy.
+
+(* non-vacuity: 45*19 started, interrupted after 2 cycles (busy) by a start of 7*30 *)
+Example C13_example_restart :
+  let busy := m_run (simple_step 6 5 false 45 19) 2 (simple_step 6 5 true 45 19 m_init) in
+  m_done busy = false /\
+  accum (m_run (simple_step 6 5 false 7 30) 3 (simple_step 6 5 true 7 30 busy)) = 210.
+Proof. vm_compute. split; reflexivity. Qed.
+
 (* --------------------------------------------------------------- non-vacuity *)
 
 (* the reducers do return on multiplier-shaped and adder-shaped arrays *)
